@@ -215,7 +215,7 @@ def check_f2(case, acc):
     n = check_model(None, case, acc, model=model)
     # the same model run twice against the SAME globals (a function statement re-binds the name each time)
     from ..engine.tape import Tape  # pylint: disable=import-outside-toplevel
-    from ..common import canon  # pylint: disable=import-outside-toplevel
+    from ..common import canon, same_result  # pylint: disable=import-outside-toplevel
     bs = load_impl()
     logs_i, logs_r = [], []
     glob_i = {'x': 0, 'cc': lambda args, options: False}
@@ -235,7 +235,7 @@ def check_f2(case, acc):
         acc.states += 1
         acc.transitions += 1
         acc.traces += 1
-        if ri != rr or logs_i != logs_r or canon(glob_i.get('x')) != canon(glob_r.get('x')):
+        if not same_result(ri, rr) or logs_i != logs_r or canon(glob_i.get('x')) != canon(glob_r.get('x')):
             acc.violation(dict(case, round=rnd), {'result': rr, 'logs': logs_r}, {'result': ri, 'logs': logs_i}, 'second model on the same globals: differs from the reference machine')
             break
     return n
